@@ -27,6 +27,7 @@ import random
 
 from vloop import VLoop, Wire
 from impl_link import build_frame_bytes
+import access as X
 
 # kind -> (class path, blocking, number of fragments, timeout seconds)
 KINDS = {
@@ -90,6 +91,7 @@ class Runner:
         from zigpy_zboss.api import ZBOSS
         from zigpy_zboss import uart as U
         self.U = U
+        X.prime()
         self.loop = VLoop()
         asyncio.set_event_loop(self.loop)
         raw = {conf.CONF_DEVICE: {conf.CONF_DEVICE_PATH: "/dev/null"}}
@@ -100,7 +102,7 @@ class Runner:
         self.proto = U.ZbossNcpProtocol(cfg[conf.CONF_DEVICE], self.api)
         self.wire = Wire()
         self.proto.connection_made(self.wire)
-        self.api._uart = self.proto
+        X.aset(self.api, "uart", self.proto)
         self.obs = []
         outer = self
 
@@ -257,13 +259,13 @@ class Runner:
             loop.call_soon(api.close)
         elif k == "lost":
             # as the transport does it: from inside the event loop
-            if api._uart is not None:
-                loop.call_soon(api._uart.connection_lost, None)
-            else:
-                loop.call_soon(proto.connection_lost, None)
+            link = X.aget(api, "uart")
+            loop.call_soon((link if link is not None else proto).connection_lost, None)
         elif k == "reset_begin":
+            lock_ = X.aget(api, "reset_lock")
+
             async def hold():
-                async with api._reset_uart_reconnect:
+                async with lock_:
                     await asyncio.sleep(3600)
             if self.reset_task is None or self.reset_task.done():
                 self.reset_task = loop.create_task(hold())
@@ -293,8 +295,8 @@ class Runner:
         """The packet sequence number a matching ACK must carry now.  Read from the protocol object when it exposes it;
         otherwise derived from the wire alone (the number stamped on the last data frame written)."""
         try:
-            return int(self.proto._pack_seq)
-        except AttributeError:
+            return int(X.pget(self.proto, "pack_seq"))
+        except (AttributeError, X.AccessBroken):
             for b in reversed(self.wire.log):
                 b = bytes(b)
                 if not (len(b) == 7 and b[5] & 1):
@@ -304,7 +306,7 @@ class Runner:
     def listeners(self):
         # one-shot waiters only: callbacks registered by ("listen", kind) stay registered by design
         from zigpy_zboss.utils import OneShotResponseListener
-        return sum(1 for v in self.api._listeners.values() for x in v if isinstance(x, OneShotResponseListener))
+        return sum(1 for v in X.aget(self.api, "listeners").values() for x in v if isinstance(x, OneShotResponseListener))
 
 
 def run_scenario(events):
